@@ -19,8 +19,12 @@ import (
 	"errors"
 	"fmt"
 	"io"
+	"math"
 	"strconv"
 )
+
+// maxPreallocSize is the maximum size allocated in advance for a declared bulk length or array size.
+const maxPreallocSize = 64 * 1024
 
 // Paser represents a Redis serialization protocol (RESP) parser.
 type Parser struct {
@@ -71,10 +75,17 @@ func (parser *Parser) nextLineBytes() ([]byte, error) {
 
 // get next bulk message bytes of length num.
 func (parser *Parser) nextLengthBytes(num int) ([]byte, error) {
+	if math.MaxInt-2 < num {
+		return nil, fmt.Errorf(errorInvalidBulkStringLength, 0, num)
+	}
 	n := num + 2 // + crlf
-	buf := make([]byte, n)
+	// The buffer grows as the bytes arrive because the declared length is not trusted.
+	buf := make([]byte, min(n, maxPreallocSize))
 	totalRead := 0
 	for totalRead < n {
+		if totalRead == len(buf) {
+			buf = append(buf, make([]byte, min(n-len(buf), len(buf)))...)
+		}
 		read, err := parser.reader.Read(buf[totalRead:])
 		if err != nil {
 			if err == io.EOF {
